@@ -735,7 +735,7 @@ Qed.
 Theorem clear_kills : forall w visit w' r evs e, Inv w -> step w (Clear visit) = Some (w', r, evs) -> is_active w' e = false.
 Proof.
   intros w visit w' r evs e HI H. cbn [step] in H.
-  pose proof (do_clear_inv w visit w' r evs HI H) as HI'.
+  pose proof (do_clear_inv w (clear_order visit) w' r evs HI H) as HI'.
   assert (Hlen : w_len w' = 0).
   { unfold do_clear in H.
     destruct (clear_archs _ _) as [[[[a1 s1] f1] e1]|]; cbn [obind] in H; [|discriminate].
